@@ -41,7 +41,8 @@ MANIFEST = {
             'finished/started, process gone, resources released exactly once, '
             'node map restored.  Bystanders: same final outcome as in the run '
             'without the request, nothing dropped from queues or pools.'
-            '  Second session: a CancelWatch observer requires that once the scheduling loop has consumed the request no named task sits in the wait pool at a step boundary or is started.',
+            '  Second session: a CancelWatch observer requires that once the scheduling loop has consumed the request no named task sits in the wait pool at a step boundary or is started.'
+            '  Third session: intake race on the real BaseComponent - the main thread passes things through is_canceled while the control thread registers further requests through _control_cb (yield before the cancel lock, LINE perturbation): a request registered before a thing reaches the intake is honoured there, no request is forgotten, no bystander dropped.',
     'note': 'scheduler stage and executor stage are exercised separately; the '
             'client side of cancel_tasks (control message with forward flag) '
             'is covered by C16; executor histories use real threads/processes '
@@ -481,9 +482,121 @@ def run_client_case(case, res):
                           '%s: %s -> %s' % (u, before[u], t.state), ctx)
 
 
+# ------------------------------------------------------------------------------
+# (d) intake filter vs. request registration: the component's main thread drops
+#     named things at intake (is_canceled) while the control thread registers
+#     further requests.  A request which was registered before a thing reaches
+#     the intake is honoured there.
+#
+def intake_race(res, rng, idx):
+    import time
+    import threading as mt
+    from ..harness import NullLog, NullProf, RecPublisher
+    from ..core    import YieldLock
+    from ..popsim  import Perturb
+    import radical.pilot.utils.component as m_comp
+
+    seed = rng.randint(0, 2 ** 30)
+    crng = random.Random(seed)
+    c = m_comp.AgentComponent.__new__(m_comp.AgentComponent)
+    c._log, c._prof = NullLog(), NullProf()
+    c._uid          = 'agent_staging_input.%04d' % (idx % 10)
+    c._publishers   = {rpc.STATE_PUBSUB: RecPublisher(rpc.STATE_PUBSUB)}
+    c._outputs      = dict()
+    c._rpc_reqs     = dict()
+    c._cancel_list  = list()
+    c._cancel_lock  = YieldLock(mt.RLock(), seed, '_cancel_lock')
+    pert = Perturb(seed, 0.3, funcs=[m_comp.BaseComponent.is_canceled,
+                                     m_comp.BaseComponent.advance])
+
+    n     = crng.randint(4, 12)
+    uids  = ['t.%03d' % i for i in range(n)]
+    named = [u for u in uids if crng.random() < 0.6]
+    # requests: one or two uids each, sent in a burst
+    reqs, rest = list(), list(named)
+    crng.shuffle(rest)
+    while rest:
+        k = crng.choice([1, 1, 2])
+        reqs.append(rest[:k]); rest = rest[k:]
+    registered = dict()          # uid -> True once its request is registered
+    intake     = dict()          # uid -> (registered before intake, result)
+    errs       = list()
+
+    def control():
+        try:
+            for r in reqs:
+                c._control_cb(rpc.CONTROL_PUBSUB, {'cmd': 'cancel_tasks',
+                                                   'arg': {'uids': list(r)}})
+                for u in r:
+                    registered[u] = True
+                time.sleep(crng.choice([0, 0, 0.0003, 0.001]))
+        except Exception as e:
+            errs.append('control: %r' % e)
+
+    def main():
+        try:
+            for u in uids:
+                before = registered.get(u, False)
+                task   = {'uid': u, 'type': 'task',
+                          'state': rps.AGENT_STAGING_INPUT_PENDING}
+                intake[u] = (before, c.is_canceled(task))
+                time.sleep(0)
+        except Exception as e:
+            errs.append('intake: %r' % e)
+
+    a = mt.Thread(target=control, name='control-sub', daemon=True)
+    b = mt.Thread(target=main,    name='main-loop',   daemon=True)
+    try:
+        a.start(); b.start()
+        a.join(timeout=20); b.join(timeout=20)
+    finally:
+        pert.stop()
+    res.count('intake_race_histories')
+    ctx_ = {'seed': seed, 'requests': reqs, 'intake': intake, 'errors': errs}
+    if a.is_alive() or b.is_alive():
+        res.inconc('intake race: threads still busy after 20 s')
+        return
+    for e in errs:
+        res.violation('intake-race/raised', e, ctx_)
+        return
+    # second pass, nothing else running: whatever was named and not dropped
+    # in the first pass is dropped now; nothing else is
+    pubs = [t['uid'] for m in c._publishers[rpc.STATE_PUBSUB].msgs
+                     for t in ru.as_list(m['arg'])
+                     if t.get('state') == rps.CANCELED]
+    for u in uids:
+        res.count('intake_race_things_checked')
+        before, dropped = intake[u]
+        if before and not dropped:
+            res.violation('named-thing-passed-intake', '%s was named in a '
+                          'request registered before it reached the intake, '
+                          'but passed the filter' % u, ctx_)
+            return
+        if dropped and u not in named:
+            res.violation('bystander-dropped-at-intake', u, ctx_)
+            return
+        again = c.is_canceled({'uid': u, 'type': 'task',
+                               'state': rps.AGENT_STAGING_INPUT_PENDING})
+        if u in named and not dropped and not again:
+            res.violation('cancel-request-forgotten', '%s was named, passed '
+                          'the intake before its request was registered, and '
+                          'the request is not in the component\'s list any '
+                          'more' % u, ctx_)
+            return
+        if pubs.count(u) > 1:
+            res.violation('named-thing-canceled-twice', u, ctx_)
+            return
+
+
 def run(ctx):
     from . import c07
     res = Result()
+
+    rng = ctx.rng('intake')
+    for i in range(ctx.n(800, 40000)):
+        intake_race(res, rng, i)
+        if len(res.violations) > 5:
+            break
 
     rng = ctx.rng('client')
     for i in range(ctx.n(3000, 60000)):
